@@ -4,9 +4,10 @@ From TV Require Import Base.I32 Gen.DiffFlags Model.Diff Proofs.Diff.
 From Coq Require Import NArith.
 Open Scope N_scope.
 
-(* (0) the constants read from src/context/diff_flags.rs satisfy the side conditions the proofs use
+(* (0) the constants read from src/context/diff_flags.rs, llir/lower.rs and diff_switch_utils.rs satisfy the side conditions the proofs use
        (8 bits, 8 distinct built-in names, `-` `+` `*` are not flag-name characters, define_flag
-       performs exactly the three updates the model performs) *)
+       performs exactly the three updates the model performs, elaborate_diff_switches / select_diff_switch_case /
+       explicit_case_bitmasks have the modelled text) *)
 Theorem C14_table_ok : table_ok = true.
 Proof. exact table_is_ok. Qed.
 
@@ -29,12 +30,20 @@ Theorem C14_mapfile_ops_preserve_consistent : forall ops fd fd',
   Consistent fd -> ops_no_repoint fd ops -> apply_mapfile_ops fd ops = Ok fd' -> Consistent fd'.
 Proof. exact mapfile_ops_preserve_consistent. Qed.
 
-(* (3) known defect #10 (DESIGN 6): without that guard the round trip fails -- `0 E-` then `4 E-`:
-       mask 0x01 prints as "E", which parses to bit 4.  fixes/c14-flag-name-repoint.diff *)
-Theorem C14_label_roundtrip_all_defs_refuted :
+(* (3) known defect #10 (DESIGN 6) and its fix (fixes/c14-flag-name-repoint.diff).  gen/diffflags.py reads from
+       define_flag_from_mapfile whether it rejects a name that another flag currently prints as
+       (gen_repoint_check).  While it does not, the round trip is refuted -- `0 E-` then `4 E-`: mask 0x01
+       prints as "E", which parses to bit 4.  Once it does, the round trip holds in every state a mapfile
+       can reach from the built-in definitions. *)
+Theorem C14_label_roundtrip_all_defs_refuted : gen_repoint_check = false ->
   exists fd0 fd m s, default_defs = Ok fd0 /\ apply_mapfile_ops fd0 dup_ops = Ok fd /\ m <= 255 /\
     mask_to_label fd m = Ok s /\ parse_label fd s <> Ok m.
 Proof. exact label_roundtrip_all_defs_refuted. Qed.
+
+Theorem C14_label_roundtrip_reachable : gen_repoint_check = true -> forall ops fd0 fd,
+  default_defs = Ok fd0 -> apply_mapfile_ops fd0 ops = Ok fd ->
+  forall m, m <= 255 -> exists s, mask_to_label fd m = Ok s /\ parse_label fd s = Ok m.
+Proof. exact label_roundtrip_reachable. Qed.
 
 (* (4) switch elaboration, flat switches (every switch of the statement has n cases, 2 <= n <= 8, first
        case present -- what the parser and validate_difficulty guarantee): on every difficulty d the
@@ -51,14 +60,20 @@ Theorem C14_elaborate_exactly_one : forall fd m args n d,
     (forall c, In c copies -> N.land (fst c) (aux_bits fd) = N.land m (aux_bits fd)).
 Proof. exact elaborate_exactly_one_lem. Qed.
 
-(* (5) defect found by this check: a switch nested inside a switch case.  `ins((1:2:3:4):::)`:
-       elaborate_diff_switches collects explicit positions from the outer switch only, emits one copy
-       for difficulties 0-3 and gives it the value of difficulty 0; the statement means 2 at
-       difficulty 1.  fixes/c14-nested-diff-switch.diff *)
-Theorem C14_elaborate_nested_refuted :
+(* (5) defect found by this check and its fix (fixes/c14-nested-diff-switch.diff): a switch nested inside a
+       switch case.  gen/diffflags.py reads from elaborate_diff_switches whether explicit positions are
+       collected through nested switches (gen_nested_meta).  While they are not, `ins((1:2:3:4):::)` gets
+       one copy for difficulties 0-3 carrying the value of difficulty 0, although it means 2 at difficulty 1;
+       once they are, the same statement gets the four copies it means. *)
+Theorem C14_elaborate_nested_refuted : gen_nested_meta = false ->
   exists fd copies, default_defs = Ok fd /\ elaborate fd 255 [nested_arg] = Ok copies /\
     filter (fun c => bit (fst c) 1) copies = [(15, [1%Z])] /\ meaning nested_arg 1 = Ok 2%Z.
 Proof. exact elaborate_nested_refuted. Qed.
+
+Theorem C14_elaborate_nested_fixed_example : gen_nested_meta = true ->
+  exists fd, default_defs = Ok fd /\
+    elaborate fd 255 [nested_arg] = Ok [(1, [1%Z]); (2, [2%Z]); (4, [3%Z]); (8, [4%Z])].
+Proof. exact elaborate_nested_fixed_example. Qed.
 
 (* non-vacuity *)
 Example C14_ex_roundtrip_th08_style :
